@@ -282,28 +282,37 @@ func c08Resend(c *Ctx, v *vocab, prop string) {
 	r.Check(fi.Name+":every stored packet is resent", wNo == nil && nIt > 0, fi.Decl.Pos(), len(in.Traces),
 		"an iteration of the resend loop completes without sending the stored packet (a stored PUBREL or PUBLISH is skipped on resume)", c.witness(wNo)...)
 	// the resend loop iterates over exactly the AllPackets result
-	okRange := false
+	okRange, badRange := false, false
 	for _, t := range in.Traces {
 		for i, e := range t.Ev {
 			if e.Kind == EvLoopBegin {
 				if rs, ok := e.LoopStmt.(*ast.RangeStmt); ok {
 					ro := (&Interp{P: c.P, Info: fi.Pkg.TypesInfo}).objOf(rs.X)
+					// the listing variable is assigned exactly once before the loop — by the AllPackets call; a
+					// re-slice / filter in between (packets = packets[:n]) drops stored packets from the resend
+					nAssign, fromAll := 0, false
 					for _, p := range t.Ev[:i] {
 						if p.Kind == EvAssign && p.LObj == ro && ro != nil {
+							nAssign++
 							if call, ok := ast.Unparen(p.RHS).(*ast.CallExpr); ok {
 								for _, q := range t.Ev[:i] {
 									if q.Call == call && callTo(v.bsAll)(q) {
-										okRange = true
+										fromAll = true
 									}
 								}
 							}
 						}
 					}
+					if fromAll && nAssign == 1 {
+						okRange = true
+					} else if fromAll {
+						badRange = true
+					}
 				}
 			}
 		}
 	}
-	r.Check(fi.Name+":range AllPackets(Outgoing)", okRange, fi.Decl.Pos(), len(in.Traces), "the resend loop must range over the slice returned by Session.AllPackets(Outgoing)")
+	r.Check(fi.Name+":range AllPackets(Outgoing)", okRange && !badRange, fi.Decl.Pos(), len(in.Traces), "the resend loop must range over the slice returned by Session.AllPackets(Outgoing), unfiltered and untruncated (every stored packet is retransmitted on resume, in the stored order)")
 	// processor: dequeuer started after processConnect returned nil
 	pr := c.P.ByObj[v.bProcessor]
 	if pr == nil {
